@@ -436,9 +436,28 @@ func (c17) Run(u fw.Unit) fw.Result {
 					onlyA = false
 				}
 			}
-			for run := 0; run < 4; run++ {
+			for run := 0; run < 5; run++ {
 				if run == 3 && (L > 3 || failed0) {
 					continue
+				}
+				if run == 4 {
+					// STATETTL='2s' with 1.5 s between rows: a group whose rows are never 2 s apart is alive all the
+					// time, however long ago its first row was; sequences in which some group pauses >= 2 s are skipped
+					if failed0 || L < 3 {
+						continue
+					}
+					lastAt := map[int]int{}
+					idle := false
+					for i, x := range seq {
+						g := x / len(c17Vals)
+						if at, ok := lastAt[g]; ok && float64(i-at)*1.5 >= 2 {
+							idle = true
+						}
+						lastAt[g] = i
+					}
+					if idle {
+						continue
+					}
 				}
 				if run == 1 && (L > 3 || failed0) {
 					continue // a failure that shows without pauses is reported once, under its own signature
@@ -453,6 +472,10 @@ func (c17) Run(u fw.Unit) fw.Result {
 				sql := sql
 				want := want
 				rows := rows
+				if run == 4 {
+					paused = "|state-ttl-group-kept-alive"
+					sql = sql + " WITH (STATETTL='2s')"
+				}
 				if run == 3 {
 					// the aggregated column under a mixed-case name, and no aggregate of the predicate in the SELECT list
 					paused = "|mixed-case-column-unselected"
@@ -493,7 +516,7 @@ func (c17) Run(u fw.Unit) fw.Result {
 			r := detExec(sql, opts, func(e *Env) {
 				for _, row := range rows {
 					e.Emit(copyVal(row).(map[string]any))
-					if run == 1 {
+					if run == 1 || run == 4 {
 						e.Sleep(1500 * vtime.Millisecond)
 					}
 				}
